@@ -796,7 +796,7 @@ def exhaustive_cases(quick=True):
     configurations of small_scopes() (1-2 locations), quiescing after every event, plus the same
     histories issued with no pause at all (maximal overlap) for the shorter ones.
     quick:    L = 5 (3 jobs) on all 7 scopes, L = 6 (2 jobs, no duplicated notification) on 2 scopes;
-    thorough: L = 6 (3 jobs) on all 7 scopes, L = 7 (3 jobs) on 3 scopes."""
+    thorough: L = 6 (3 jobs) on all 7 scopes, L = 7 (3 jobs, no duplicated notification) on 3 scopes."""
     scopes = small_scopes()
     if quick:
         plans = [(3, 1, 5, "q", True), (3, 1, 4, "0", True)]
@@ -807,8 +807,8 @@ def exhaustive_cases(quick=True):
             # 6-event histories of two jobs (without duplicated notifications) on the two one-location scopes
             extra = [(2, 6, 6, "q", False)] if name in ("1hw", "1slot") else []
         else:
-            # every 7-event history of three jobs on three of the scopes
-            extra = [(3, 7, 7, "q", True)] if name in ("1hw", "1slot", "wrap") else []
+            # every 7-event history of three jobs (without duplicated notifications) on three of the scopes
+            extra = [(3, 7, 7, "q", False)] if name in ("1hw", "1slot", "wrap") else []
         for njobs, lo, hi, pace, dups in plans + extra:
             for ev in enumerate_histories(njobs, hi, dups=dups, min_len=lo):
                 yield {"cfg": cfg, "values": "int", "jobs": jobs, "events": ev, "pace": pace, "seed": len(ev),
